@@ -1,10 +1,10 @@
 CONSTANTS
   Variant = "fixed"
   MaxLabels = 3
-  MaxList = 2
+  MaxList = 1
   WithLong = FALSE
 INIT Init
-NEXT NoNext
+NEXT Next
 INVARIANT ImplMeetsContract
 INVARIANT PortAside
 INVARIANT NoLookAlike
